@@ -530,6 +530,7 @@ def target_classes():
     n = 45
     a = r.normal(2, 1, n)
     T = pd.DataFrame({'a': a, 'b': 0.6 * a + r.normal(0, 1, n), 'c': r.gamma(2, 1, n) + 1})
+    T = (T * 64).round() / 64        # dyadic values: column sums are exact, so a permutation of a column has bit-identical sum / mean
     a2 = r.normal(0, 1, 80)
     tabA = {'constant-column': pd.DataFrame({'a': r.normal(size=12), 'b': np.full(12, 4.0), 'c': r.uniform(size=12)}),
             'scaled': T * 10.0, 'bigger': pd.DataFrame({'a': a2, 'b': a2 + r.normal(0, .5, 80), 'c': r.normal(size=80)}),
